@@ -201,7 +201,51 @@ def run(t):
                                 "non-transportable constant emitted", key, "ValueError",
                                 ast.dump(consts[0])[:120],
                                 {"kind": "C13", "where": "default", "value": key})
-    t.bounds.append(f"{len(strs)} strings, {len(SCALARS)} scalars, {len(nest)} nestings")
+    # check_ast contract: returns normally iff every Constant in the tree is transportable —
+    # a non-transportable Constant placed in every expression context must be refused
+    CONTEXTS = ["HOLE", "f(HOLE)", "f(1, HOLE)", "f(k=HOLE)", "f(1, k=HOLE)", "e.m(a=1, b=HOLE)",
+                "e.x + HOLE", "-HOLE", "HOLE if e.x else 1", "1 if HOLE else 2", "(1, HOLE)",
+                "[HOLE]", "{'k': HOLE}", "{HOLE: 1}", "e[HOLE]", "HOLE[0]", "HOLE.attr",
+                "e.x > HOLE", "e.a and HOLE", "e.jets.Select(lambda j: j.pt + HOLE)",
+                "e.jets.Select(lambda j: f(j, w=HOLE))", "(lambda a: a)(HOLE)", "f(*[HOLE])",
+                "f(**{'k': HOLE})", "[j for j in HOLE]", "[HOLE for j in e.jets]",
+                "[j for j in e.jets if HOLE]", "f'{HOLE}'", "e.m()[1:HOLE]"]
+    BAD = [object(), [25, 30], {"a": 1}, (1, 2), {1, 2}, ds]
+    GOOD = ["s", 1, 2.5, True, None, b"x", 1j]
+
+    class Fill(ast.NodeTransformer):
+        def __init__(self, value):
+            self.value = value
+
+        def visit_Name(self, node):
+            if node.id == "HOLE":
+                return ast.copy_location(ast.Constant(value=self.value), node)
+            return node
+    for ctx in CONTEXTS:
+        for v in BAD + GOOD:
+            tree = ast.fix_missing_locations(Fill(v).visit(ast.parse("lambda e: " + ctx, mode="eval").body))
+            key = f"check_ast:{ctx}:{type(v).__name__}"
+            t.case(key, True, sample=f"check_ast(lambda e: {ctx}) with HOLE := Constant({type(v).__name__})")
+            t.contract("check_ast: returns iff every Constant is transportable, else ValueError")
+            try:
+                check_ast(tree)
+                refused = False
+            except ValueError:
+                refused = True
+            except Exception as ex:
+                t.violation("check_ast:raises only ValueError", f"raises {type(ex).__name__}", key,
+                            "ValueError", repr(ex)[:100], {"kind": "C13", "where": "check_ast", "value": key})
+                continue
+            want = any(v is b for b in BAD)
+            if refused != want:
+                t.violation("check_ast:returns iff every Constant has a transportable type",
+                            ("non-transportable constant accepted" if want else
+                             "transportable constant refused") + f" in context `{ctx}`", key,
+                            "ValueError" if want else "accepted",
+                            "accepted" if want else "ValueError",
+                            {"kind": "C13", "where": "check_ast", "value": key})
+    t.bounds.append(f"{len(strs)} strings, {len(SCALARS)} scalars, {len(nest)} nestings, "
+                    f"{len(CONTEXTS)} expression contexts x {len(BAD) + len(GOOD)} constants")
 
 
 def replay(payload, t):
